@@ -145,6 +145,18 @@ CLAIMS["C19"] = (
     TRUSTED,
     "DESIGN.md §4 C19")
 
+CLAIMS["C10"] = (
+    "static analysis: THIR shape of TokenStream::next's span bookkeeping; MIR abort inventory of the digit / exponent "
+    "code; sibling agreement of the three integer-literal parsers; payload copy checks through parser, typer and exporters",
+    "Decides losslessness structurally (every token's span is [current_offset, input.len()-remaining.len()) and the "
+    "offset advances to exactly that end; empty span for the synthetic Endline; locations copied) and the integer half "
+    "of exactness (checked accumulation with the right radix, overflow rejected, suffix tables identical and total, "
+    "range-checked narrowing, literal payloads copied unchanged through 42 parser/typer/exporter arms, exactly one f32 "
+    "narrowing for f / h). Does NOT decide that the f64 computed from decimal digits is the nearest double: that is a "
+    "numerical property of calculate_float64_from_parts (known to be off by one ulp for some inputs).",
+    TRUSTED,
+    "DESIGN.md §4 C10")
+
 NOT_YET = "rules for this property are not built yet in this round (see DESIGN.md §10 build order); no claim is made"
 
 
